@@ -2,7 +2,10 @@
 Tie: (a) direct drive of DetailedPlacer (harness/dopt.cpp): every bestSwap/bestInsert/bestSwapUpdate call
 replayed EXACTLY (decision + value) on Optimiser.v with the implementation's candidates; after every
 optimiser pass (swaps, inserts, shifts, reordering, with arbitrary window arguments) value() must equal
-the from-scratch wirelength and must not have risen; (b) Circuit::placeDetailed with a recording
+the from-scratch wirelength and must not have risen; for every call of runShiftsOnCells of a driven shift op (hook
+coloquinte_verif_shift_hook) the network the C++ built is compared with ShiftLp.shift_net on the same state, lemon's
+potentials and flows are run through the extracted proved certificate checker ShiftLp.shift_cert_ok
+(c05_shift_certificate_optimal) and the positions written are compared with potential(cell) - potential(fixed); (b) Circuit::placeDetailed with a recording
 callback: Circuit::hpwl() at successive Detailed callbacks and on return never increases and the final
 value does not exceed the legalized one.
 Known finding F8 (pin offsets frozen at construction, polarised cells change orientation) is matched
@@ -57,6 +60,9 @@ def run(ctx):
             known += 1
             continue
         ofail.append((l, what, "Circuit::placeDetailed: " + why + ("" if frozen_monotone else " (the wirelength with orientations frozen as the optimiser sees them rose too)")))
+    lp = dres["lp"]
+    for l, rec, why in lp["value_rose"][:2]:
+        ofail.append((l, "SL " + rec[3:][:3000], "DetailedPlacer::runShiftsOnCells driven directly: the x wirelength rose: " + why))
     for l, what, why in cres["crash"][:2] + dres["crash"][:2]:
         ofail.append((l, what, why))
     for l, i, why in ofail[:3]:
@@ -75,13 +81,24 @@ def run(ctx):
         x = (dres["throw_fail"] + dres["check_fail"])[0]
         broken.append(("a directly driven optimiser pass throws / fails DetailedPlacer::check (%d)" % (len(dres["throw_fail"]) + len(dres["check_fail"])),
                        {"broken": "direct-drive correspondence (harness/dopt.cpp)", "first_difference": {"case": x[0], "detail": x[1]}}))
+    for key, what, thm in (("net_diff", "the min-cost-flow network built by DetailedPlacer::runShiftsOnCells differs from the model ShiftLp.shift_net on the same state",
+                            "correspondence of coq/ShiftLp.v shift_net (theorems c05_shift_certificate_optimal, c05_certified_shift_never_worsens)"),
+                           ("cert_rejected", "the proved certificate checker ShiftLp.shift_cert_ok rejects lemon's potentials/flows for a shift pass",
+                            "certificate of the shift pass (hypothesis shift_cert_ok = true of c05_shift_certificate_optimal / c05_certified_shift_never_worsens)"),
+                           ("pos_diff", "the positions written by runShiftsOnCells are not potential(cell) - potential(fixed)",
+                            "correspondence of coq/ShiftLp.v positions_of (theorem c05_certified_shift_never_worsens)"),
+                           ("driver_fail", "a shift-pass record could not be evaluated by the model driver", "shift-LP correspondence (harness/dopt.cpp hook record <-> ocaml/driver_shift.ml)")):
+        if lp[key]:
+            broken.append((what + " (%d of %d calls)" % (len(lp[key]), lp["records"]),
+                           {"broken": thm, "first_difference": {"case": lp[key][0][0], "record": lp[key][0][1][:3000], "detail": lp[key][0][2]}}))
     if not proof_ok:
         broken.append(("proof obligations of Properties_C05.v do not check", {"broken": "Properties_C05.v", "detail": proof}))
     if not ofail:
         for what, rep in broken:
             ctx.violation(what + "; no input on which the wirelength rises found", rep, found_input=False)
     cov = dict(proof)
-    cov.update({"trusted_base": common.TRUSTED_BASE + ["lemon NetworkSimplex (shift pass) is not modelled: its effect is validated per pass",
+    cov.update({"trusted_base": common.TRUSTED_BASE + ["lemon NetworkSimplex (shift pass) is not modelled: its answer is certified per call by the proved checker ShiftLp.shift_cert_ok "
+                                                        "(needs the hook coloquinte_verif_shift_hook in /repo; without it only 'value after <= value before' is observed)",
                                                         "candidate positions of the best-move calls are taken from the implementation (theorems hold for every candidate list)"],
                 "evaluations": dres["runs"] + cres["runs"],
                 "distinct_nontrivial": dres["nontrivial"] + cres["hpwl_improved_runs"],
@@ -91,10 +108,13 @@ def run(ctx):
                         "non-trivial = some op changed the placement (DO) / the run improved the wirelength (DP); distinct = distinct case lines",
                 "direct_drive": do.summary(dres), "placeDetailed_runs": dc.summary(cres),
                 "known_F8_matches": known,
+                "shift_lp_certificates": do.lp_summary(lp),
                 "samples": [dres["lines"][0][:600], cres["lines"][0][:600]],
-                "model_vs_impl_differences": len(dres["model_mismatch"]) + len(dres["value_fail"]),
+                "model_vs_impl_differences": len(dres["model_mismatch"]) + len(dres["value_fail"]) + len(lp["net_diff"]) + len(lp["cert_rejected"]) + len(lp["pos_diff"]),
                 "impl_outputs_violating_statement": len(ofail)})
-    return ctx.finish(LEVEL, cov, ["the shift pass is validated per run, not proved (network simplex not modelled)",
+    return ctx.finish(LEVEL, cov, ["the shift pass is certified per call (proved LP certificate checker on lemon's potentials and flows, %d calls this run); the network simplex itself is not modelled"
+                                   % lp["records"] if lp["records"] else
+                                   "the shift pass is only observed in this run (value after <= value before): /repo does not carry the hook coloquinte_verif_shift_hook, the LP certificate was not exercised",
                                    "model tied to the code by exact comparison on the cases of this run"])
 
 
@@ -112,6 +132,16 @@ def replay(ctx, path):
         hp = [int(x.split(";")[2]) for x in out[0].split(" || ") if x.count(";") >= 2 and x.split(";")[2].strip().lstrip("-").isdigit()]
         print("hpwl sequence (legalized, callbacks, final):", hp)
         return 1 if any(b > a for a, b in zip(hp, hp[1:])) else 0
-    vals = [int(x.split(";")[-3]) for x in out[0].split(" / ")[1:] if x.count(";") >= 3]
+    segs = out[0].split(" / ")
+    vals = [int(segs[0].split(";")[0].split()[1])] if segs[0].startswith("INIT") else []
+    vals += [int(x.split(";")[-3]) for x in segs[1:] if x.count(";") >= 3 and not x.startswith("L ")]
     print("value sequence:", vals)
-    return 1 if any(b > a for a, b in zip(vals, vals[1:])) else 0
+    recs = ["SL " + x[2:] for x in segs[1:] if x.startswith("L ")]
+    bad = 0
+    if recs:
+        sout, _, _ = common.run_both([common.build_driver("shift")], None, recs)
+        for o in sout:
+            print("shift LP:", o)
+            if not o.startswith("net=1 sup=1 cert=1 dual=1 flow=1 cons=1 range=1 pos=1"):
+                bad = 1
+    return 1 if bad or any(b > a for a, b in zip(vals, vals[1:])) else 0
